@@ -70,6 +70,11 @@ func (s *S3) Put(key string, b []byte) {
 	s.Objects[key] = append([]byte(nil), b...)
 	s.mu.Unlock()
 }
+func (s *S3) Delete(key string) {
+	s.mu.Lock()
+	delete(s.Objects, key)
+	s.mu.Unlock()
+}
 func (s *S3) Keys() []string {
 	s.mu.Lock()
 	defer s.mu.Unlock()
